@@ -32,6 +32,7 @@ class C19(Prop):
         for h in obs["histories"]:
             res += A.oracle_c19(h)
         res += A.oracle_timeout(obs.get("timeout"))
+        res += A.oracle_conc(obs.get("conc"))
         return res
 
     def model_check(self, ctx, obs):
